@@ -5,6 +5,7 @@ package syncer
 import (
 	"context"
 	"errors"
+	"io"
 	"sync"
 	"time"
 
@@ -182,3 +183,7 @@ func vEntries(d *snapshot.DBI) ([]vSnapEntry, error) {
 		out = append(out, vSnapEntry{kv.Key, kv.Value, kv.TimestampNano, kv.Flags})
 	}
 }
+
+var ioEOF = io.EOF
+
+func vEOF() error { return io.EOF }
